@@ -2978,7 +2978,7 @@ func (p *parser) parseBranchStmt(tok token.Token) ast.Stmt {
 		n := len(p.targetStack) - 1
 		p.targetStack[n] = append(p.targetStack[n], label)
 	}
-	if p.tok != token.SEMICOLON { // XGo: goto command
+	if p.tok != token.SEMICOLON && p.tok != token.RBRACE { // XGo: goto command
 		if label != nil {
 			p.unget(label.NamePos, token.IDENT, label.Name)
 		}
